@@ -22,7 +22,7 @@ NormEv(e) ==
 Verdict(e) ==
   LET x == Apply(D, NormEv(e))
       d2 == NormDir(e.dir) IN
-  IF e.st # x.st THEN "PF_status_" \o e.op \o "_" \o x.st \o "_got_" \o e.st
+  IF e.st # x.st THEN "PF_status_" \o e.op
   ELSE IF e.v # x.v THEN "PF_value_" \o e.op
   ELSE IF (e.called > 0) # x.called \/ e.called > 1 THEN "PF_default_factory_calls"
   ELSE IF d2.base # x.D.base \/ d2.priv # x.D.priv THEN "PF_directories_" \o e.op
